@@ -9,20 +9,190 @@ theorem zblocked_mk (st : Stat) :
     ({ st := some st } : ZOut).blocked = if st = .errAlloc ∨ st = .errMaxCapacity then some st else none := by
   simp [ZOut.blocked]
 
-theorem ensureRoom_inv (a : Arr) (m : Mem) (hinv : a.Inv) : (ensureRoom a m).2.1.Inv := by
-  rcases (ensureRoom_spec a m hinv).1 with ⟨_, _, h2, h3, h4, _, h6⟩ | ⟨_, hsame⟩
-  · obtain ⟨i1, i2, i3, i4⟩ := hinv
-    refine ⟨by omega, h4, ?_, ?_⟩ <;> rcases h6 with h6 | ⟨_, h6, h7, h8⟩ <;> omega
-  · rw [hsame]; exact hinv
-
-theorem zipAdd_fail_fst (a1 a2 : Arr) (it : ArrIter) (x y : Nat) (m : Mem)
+theorem zipAdd_fail_fst (a1 a2 : Arr) (it : ArrIter) (x y : Nat) (m : Mem) (h1 : a1.Inv) (h2 : a2.Inv)
+    (hi1 : it.index ≤ a1.size) (hi2 : it.index ≤ a2.size)
     (h : (zipAdd a1 a2 it x y m).1 ≠ .ok) : (zipAdd a1 a2 it x y m).2.1 = (ensureRoom a1 m).2.1 := by
-  rw [zipAdd_eq] at h ⊢
+  rw [zipAdd_eq a1 a2 it x y m h1 h2 hi1 hi2] at h ⊢
   split
   · rfl
   · split
     · rfl
     · rename_i h1 h2; simp only [h1, h2] at h; exact absurd rfl h
+
+/-- **both or none, for every cursor value** (A11): `cc_array_zip_iter_add` on two arrays either
+succeeds — one element more in each, cursor advanced — or reports an error with both contents and the
+cursor as they were (a buffer may have been re-allocated: capacity grown, content and size kept);
+both invariants hold afterwards, the ledger is balanced and nothing faults.  No relation between the
+cursor and the arrays is assumed. -/
+theorem zipAdd_all_or_nothing (a1 a2 : Arr) (it : ArrIter) (x y : Nat) (m : Mem) (h1 : a1.Inv) (h2 : a2.Inv) :
+    (((zipAdd a1 a2 it x y m).1 = .ok ∧ (zipAdd a1 a2 it x y m).2.1.size = a1.size + 1 ∧
+        (zipAdd a1 a2 it x y m).2.2.1.size = a2.size + 1 ∧
+        (zipAdd a1 a2 it x y m).2.2.2.1 = { it with index := it.index + 1 }) ∨
+     ((zipAdd a1 a2 it x y m).1 ≠ .ok ∧ (zipAdd a1 a2 it x y m).2.1.abs = a1.abs ∧
+        (zipAdd a1 a2 it x y m).2.2.1.abs = a2.abs ∧ (zipAdd a1 a2 it x y m).2.2.2.1 = it)) ∧
+    (zipAdd a1 a2 it x y m).2.1.Inv ∧ (zipAdd a1 a2 it x y m).2.2.1.Inv ∧
+    (zipAdd a1 a2 it x y m).2.2.2.2.live = m.live ∧ (zipAdd a1 a2 it x y m).2.2.2.2.fault = m.fault := by
+  obtain ⟨r1, rl1, rf1⟩ := ensureRoom_spec a1 m h1
+  obtain ⟨r2, rl2, rf2⟩ := ensureRoom_spec a2 (ensureRoom a1 m).2.2 h2
+  have i1 := ensureRoom_inv a1 m h1
+  have i2 := ensureRoom_inv a2 (ensureRoom a1 m).2.2 h2
+  rw [zipAdd_unfold]
+  rcases r1 with ⟨o1, b1, c1, d1, e1, _⟩ | ⟨n1, same1⟩
+  · simp only [o1, bne_self_eq_false, Bool.false_eq_true, if_false]
+    rcases r2 with ⟨o2, b2, c2, d2, e2, _⟩ | ⟨n2, same2⟩
+    · simp only [o2, bne_self_eq_false, Bool.false_eq_true, if_false]
+      obtain ⟨hm, hc⟩ := zipAddCore_room (ensureRoom a1 m).2.1 (ensureRoom a2 (ensureRoom a1 m).2.2).2.1 it x y
+        (ensureRoom a2 (ensureRoom a1 m).2.2).2.2 i1 i2 d1 d2
+      rw [hm]
+      rcases hc with ⟨hi1, hi2, e⟩ | ⟨_, e, k1, k2, k3, k4, k5⟩
+      · obtain ⟨_, _, p3, p4, _⟩ := addAt_room (ensureRoom a1 m).2.1 x it.index (ensureRoom a2 (ensureRoom a1 m).2.2).2.2 d1 e1 hi1
+        obtain ⟨_, _, q3, q4, _⟩ := addAt_room (ensureRoom a2 (ensureRoom a1 m).2.2).2.1 y it.index
+          (ensureRoom a2 (ensureRoom a1 m).2.2).2.2 d2 e2 hi2
+        rw [e]
+        obtain ⟨j1, j2, j3, j4⟩ := i1
+        obtain ⟨j5, j6, j7, j8⟩ := i2
+        refine ⟨Or.inl ⟨rfl, by rw [p3, c1], by rw [q3, c2], rfl⟩, ?_, ?_, by rw [rl2, rl1], by rw [rf2, rf1]⟩
+        · exact ⟨by rw [p3, p4.1]; omega, by rw [p4.1, p4.2.1]; exact j2, by rw [p4.1]; exact j3, by rw [p4.1]; exact j4⟩
+        · exact ⟨by rw [q3, q4.1]; omega, by rw [q4.1, q4.2.1]; exact j6, by rw [q4.1]; exact j7, by rw [q4.1]; exact j8⟩
+      · refine ⟨Or.inr ⟨by rw [e]; simp, by rw [k1, b1], by rw [k4, b2], k5⟩, k3.inv i1 (by omega), by rw [k4]; exact i2,
+          by rw [rl2, rl1], by rw [rf2, rf1]⟩
+    · have hne : ((ensureRoom a2 (ensureRoom a1 m).2.2).1 != .ok) = true := by simpa using n2
+      simp only [hne, if_true]
+      exact ⟨Or.inr ⟨by simp, b1, by rw [same2], by triv⟩, i1, i2, by rw [rl2, rl1], by rw [rf2, rf1]⟩
+  · have hne : ((ensureRoom a1 m).1 != .ok) = true := by simpa using n1
+    simp only [hne, if_true]
+    exact ⟨Or.inr ⟨by simp, by rw [same1], by triv, by triv⟩, i1, h2, rl1, rf1⟩
+
+/-! ### the same array on both sides (`ar1 == ar2`) -/
+
+theorem spec_removeAt_insertIdx (xs : List Nat) (i x : Nat) (h : i ≤ xs.length) :
+    Spec.Seq.removeAt (xs.insertIdx i x) i = (.ok, some x, xs) := by
+  have hl : i < (xs.insertIdx i x).length := by rw [List.length_insertIdx]; split <;> omega
+  unfold Spec.Seq.removeAt
+  simp only [hl, if_true, List.eraseIdx_insertIdx_self]
+  congr 2
+  rw [List.getD_eq_getElem?_getD, List.getElem?_insertIdx_self, if_pos h]
+  rfl
+
+/-- the two insertions of the aliased `zip_iter_add` after the room checks -/
+def zipAdd1Core (b : Arr) (it : ArrIter) (x y : Nat) (m : Mem) : Stat × Arr × ArrIter × Mem :=
+  let r1 := b.addAt x it.index m
+  if r1.1 != .ok then (r1.1, r1.2.1, it, r1.2.2) else
+  let r2 := r1.2.1.addAt y it.index r1.2.2
+  if r2.1 != .ok then
+    let u := r2.2.1.removeAt it.index r2.2.2
+    (r2.1, u.2.2.1, it, u.2.2.2) else
+  (.ok, r2.2.1, { it with index := it.index + 1 }, r2.2.2)
+
+theorem zipAdd1_unfold (a : Arr) (it : ArrIter) (x y : Nat) (m : Mem) :
+    zipAdd1 a it x y m =
+      if (ensureRoom a m).1 != .ok then (.errAlloc, (ensureRoom a m).2.1, it, (ensureRoom a m).2.2) else
+      if (ensureRoom (ensureRoom a m).2.1 (ensureRoom a m).2.2).1 != .ok then
+        (.errAlloc, (ensureRoom (ensureRoom a m).2.1 (ensureRoom a m).2.2).2.1, it,
+          (ensureRoom (ensureRoom a m).2.1 (ensureRoom a m).2.2).2.2) else
+      zipAdd1Core (ensureRoom (ensureRoom a m).2.1 (ensureRoom a m).2.2).2.1 it x y
+        (ensureRoom (ensureRoom a m).2.1 (ensureRoom a m).2.2).2.2 := by
+  unfold zipAdd1 zipAdd1Core ensureRoom
+  rfl
+
+theorem zipAdd1Core_spec (b : Arr) (it : ArrIter) (x y : Nat) (m : Mem) (hinv : b.Inv) :
+    (((zipAdd1Core b it x y m).1 = .ok ∧
+        (zipAdd1Core b it x y m).2.1.abs = (b.abs.insertIdx it.index x).insertIdx it.index y ∧
+        (zipAdd1Core b it x y m).2.1.size = b.size + 2 ∧
+        (zipAdd1Core b it x y m).2.2.1 = { it with index := it.index + 1 }) ∨
+     ((zipAdd1Core b it x y m).1 ≠ .ok ∧ (zipAdd1Core b it x y m).2.1.abs = b.abs ∧
+        (zipAdd1Core b it x y m).2.1.size = b.size ∧ (zipAdd1Core b it x y m).2.2.1 = it)) ∧
+    (zipAdd1Core b it x y m).2.1.Inv ∧
+    (zipAdd1Core b it x y m).2.2.2.live = m.live ∧ (zipAdd1Core b it x y m).2.2.2.fault = m.fault := by
+  obtain ⟨sp, sl, sf⟩ := addAt_spec b x it.index m hinv
+  rcases sp with ⟨hi, ⟨ok, habs, g⟩ | ⟨hb, hsame⟩⟩ | ⟨hgt, e⟩
+  · have hinv' := g.inv hinv
+    obtain ⟨sp2, sl2, sf2⟩ := addAt_spec (b.addAt x it.index m).2.1 y it.index (b.addAt x it.index m).2.2 hinv'
+    have hsz : (b.addAt x it.index m).2.1.size = b.size + 1 := g.1
+    rcases sp2 with ⟨_, ⟨ok2, habs2, g2⟩ | ⟨hb2, hsame2⟩⟩ | ⟨hgt2, _⟩
+    · have e : zipAdd1Core b it x y m = (.ok, ((b.addAt x it.index m).2.1.addAt y it.index (b.addAt x it.index m).2.2).2.1,
+          { it with index := it.index + 1 }, ((b.addAt x it.index m).2.1.addAt y it.index (b.addAt x it.index m).2.2).2.2) := by
+        unfold zipAdd1Core
+        simp only [ok, ok2, bne_self_eq_false, Bool.false_eq_true, if_false]
+      rw [e]
+      refine ⟨Or.inl ⟨rfl, by rw [habs2, habs], ?_, rfl⟩, g2.inv hinv', by rw [sl2, sl], by rw [sf2, sf]⟩
+      have := g2.1
+      show ((b.addAt x it.index m).2.1.addAt y it.index (b.addAt x it.index m).2.2).2.1.size = b.size + 2
+      omega
+    · have hne2 : (((b.addAt x it.index m).2.1.addAt y it.index (b.addAt x it.index m).2.2).1 != .ok) = true := by
+        rcases hb2.1 with ⟨h, _⟩ | ⟨h, _⟩ <;> rw [h] <;> rfl
+      obtain ⟨u1, _, u3, u4, u5, u6, _, _, u9⟩ := removeAt_spec (b.addAt x it.index m).2.1 it.index
+        ((b.addAt x it.index m).2.1.addAt y it.index (b.addAt x it.index m).2.2).2.2 hinv'
+      rw [habs, spec_removeAt_insertIdx b.abs it.index x (by rw [abs_length]; exact hi)] at u1 u3
+      have e : zipAdd1Core b it x y m = (((b.addAt x it.index m).2.1.addAt y it.index (b.addAt x it.index m).2.2).1,
+          ((b.addAt x it.index m).2.1.removeAt it.index
+            ((b.addAt x it.index m).2.1.addAt y it.index (b.addAt x it.index m).2.2).2.2).2.2.1, it,
+          ((b.addAt x it.index m).2.1.removeAt it.index
+            ((b.addAt x it.index m).2.1.addAt y it.index (b.addAt x it.index m).2.2).2.2).2.2.2) := by
+        unfold zipAdd1Core
+        simp only [ok, hne2, hsame2, bne_self_eq_false, Bool.false_eq_true, if_false, if_true]
+      rw [e]
+      have hsize := u9 u1
+      refine ⟨Or.inr ⟨by simpa using hne2, u3, ?_, rfl⟩, u4.inv hinv' u5, by rw [u6, sl2, sl], by rw [u6, sf2, sf]⟩
+      show ((b.addAt x it.index m).2.1.removeAt it.index
+            ((b.addAt x it.index m).2.1.addAt y it.index (b.addAt x it.index m).2.2).2.2).2.2.1.size = b.size
+      omega
+    · omega
+  · have hne : ((b.addAt x it.index m).1 != .ok) = true := by
+      rcases hb.1 with ⟨h, _⟩ | ⟨h, _⟩ <;> rw [h] <;> rfl
+    have e : zipAdd1Core b it x y m = ((b.addAt x it.index m).1, b, it, (b.addAt x it.index m).2.2) := by
+      unfold zipAdd1Core
+      simp only [hne, hsame, if_true]
+    rw [e]
+    exact ⟨Or.inr ⟨by simpa using hne, rfl, rfl, rfl⟩, hinv, sl, sf⟩
+  · have e' : zipAdd1Core b it x y m = (.errOutOfRange, b, it, m) := by
+      unfold zipAdd1Core
+      simp only [e]
+      rfl
+    rw [e']
+    exact ⟨Or.inr ⟨by simp, rfl, rfl, rfl⟩, hinv, rfl, rfl⟩
+
+/-- **`zip_iter_add` with the same array on both sides: both elements or none** (A11), for every
+cursor value, every growth function and every refusal schedule.  On success the array holds two more
+elements (`y` before `x` at the cursor); on any failure — also when only the *second* insertion's
+growth step is refused or hits the capacity limit — content and size are what they were.  In both
+cases the invariant (`size ≤ capacity ≤ allocated slots`) holds afterwards, the ledger is balanced
+and nothing faults. -/
+theorem zipAdd1_all_or_nothing (a : Arr) (it : ArrIter) (x y : Nat) (m : Mem) (hinv : a.Inv) :
+    (((zipAdd1 a it x y m).1 = .ok ∧
+        (zipAdd1 a it x y m).2.1.abs = (a.abs.insertIdx it.index x).insertIdx it.index y ∧
+        (zipAdd1 a it x y m).2.1.size = a.size + 2 ∧
+        (zipAdd1 a it x y m).2.2.1 = { it with index := it.index + 1 }) ∨
+     ((zipAdd1 a it x y m).1 ≠ .ok ∧ (zipAdd1 a it x y m).2.1.abs = a.abs ∧
+        (zipAdd1 a it x y m).2.1.size = a.size ∧ (zipAdd1 a it x y m).2.2.1 = it)) ∧
+    (zipAdd1 a it x y m).2.1.Inv ∧
+    (zipAdd1 a it x y m).2.2.2.live = m.live ∧ (zipAdd1 a it x y m).2.2.2.fault = m.fault := by
+  obtain ⟨r1, rl1, rf1⟩ := ensureRoom_spec a m hinv
+  have i1 := ensureRoom_inv a m hinv
+  obtain ⟨r2, rl2, rf2⟩ := ensureRoom_spec (ensureRoom a m).2.1 (ensureRoom a m).2.2 i1
+  have i2 := ensureRoom_inv (ensureRoom a m).2.1 (ensureRoom a m).2.2 i1
+  have habs1 : (ensureRoom a m).2.1.abs = a.abs ∧ (ensureRoom a m).2.1.size = a.size := by
+    rcases r1 with ⟨_, b1, c1, _⟩ | ⟨_, same1⟩
+    · exact ⟨b1, c1⟩
+    · rw [same1]; exact ⟨rfl, rfl⟩
+  have habs2 : (ensureRoom (ensureRoom a m).2.1 (ensureRoom a m).2.2).2.1.abs = a.abs ∧
+      (ensureRoom (ensureRoom a m).2.1 (ensureRoom a m).2.2).2.1.size = a.size := by
+    rcases r2 with ⟨_, b2, c2, _⟩ | ⟨_, same2⟩
+    · exact ⟨by rw [b2, habs1.1], by rw [c2, habs1.2]⟩
+    · rw [same2]; exact habs1
+  rw [zipAdd1_unfold]
+  by_cases o1 : ((ensureRoom a m).1 != .ok) = true
+  · simp only [o1, if_true]
+    exact ⟨Or.inr ⟨by simp, habs1.1, habs1.2, by triv⟩, i1, rl1, rf1⟩
+  · simp only [o1, Bool.false_eq_true, if_false]
+    by_cases o2 : ((ensureRoom (ensureRoom a m).2.1 (ensureRoom a m).2.2).1 != .ok) = true
+    · simp only [o2, if_true]
+      exact ⟨Or.inr ⟨by simp, habs2.1, habs2.2, by triv⟩, i2, by rw [rl2, rl1], by rw [rf2, rf1]⟩
+    · simp only [o2, Bool.false_eq_true, if_false]
+      obtain ⟨hc, hi, hl, hf⟩ := zipAdd1Core_spec (ensureRoom (ensureRoom a m).2.1 (ensureRoom a m).2.2).2.1 it x y
+        (ensureRoom (ensureRoom a m).2.1 (ensureRoom a m).2.2).2.2 i2
+      rw [habs2.1, habs2.2] at hc
+      exact ⟨hc, hi, by rw [hl, rl2, rl1], by rw [hf, rf2, rf1]⟩
 
 /-- one zip-iterator call refines one step of the ideal lock-step cursor -/
 theorem zipStep_sim (a1 a2 : Arr) (it : ArrIter) (z : ZipCursor) (op : ZipOp) (m : Mem)
@@ -62,7 +232,7 @@ theorem zipStep_sim (a1 a2 : Arr) (it : ArrIter) (z : ZipCursor) (op : ZipOp) (m
       refine ⟨by simp [ZipCursor.add], by simpa using hsim, g1.inv h1, g2.inv h2, g1.2.2.2.2, g2.2.2.2.2, sl, sf,
         fun st e1 e2 => ?_⟩
       simp at e1; exact absurd e1.symm e2
-    · have hf := zipAdd_fail_fst a1 a2 it x y m (by rw [e]; simp)
+    · have hf := zipAdd_fail_fst a1 a2 it x y m h1 h2 hs.index_le.1 hs.index_le.2 (by rw [e]; simp)
       have hi := ensureRoom_inv a1 m h1
       rw [← hf] at hi
       simp only [e, b7, b8]
